@@ -107,7 +107,7 @@ func (c *HopClient) connectLocked(address string, authenticator core.Authenticat
 		Timeout: c.hostconfig.DataTimeout,
 		Log:     logrus.WithField("muxer", "client"),
 	}
-	c.TubeMuxer = tubes.Server(c.TransportConn, &config)
+	c.TubeMuxer = tubes.Client(c.TransportConn, &config)
 
 	if c.hostconfig.RequestAuthorization {
 		err = c.userAuthorization()
